@@ -165,7 +165,22 @@ def check(ctx: Ctx) -> str:
     ctx.check("need_eval_context = pass_arg is None" in s and "wrapper = pass_eval_context(wrapper)" in s and "args = args[1:]" in s, "evalctx", "async_utils:async_variant", "eval context injection", "twins without a pass decorator need an injected eval context that is dropped again before the call", av.loc())
     ctx.check("wrapper.jinja_async_variant = True" in s, "tag", "async_utils:async_variant", "wrapper tag", "the wrapper must carry jinja_async_variant = True (constant folding relies on it)", av.loc())
     wr = [n_ for n_ in ast.walk(av.node) if isinstance(n_, ast.FunctionDef) and n_.name == "wrapper"]
-    ok = len(wr) == 1 and "if b:\n        return async_func(*args, **kwargs)\n    return normal_func(*args, **kwargs)" in ast.unparse(wr[0])
+    ok = False
+    if len(wr) == 1:
+        from ..normalize import norm
+
+        w = norm(wr[0])
+        rs_ = [r for r in astq.returns(w)]
+        forms = {ast.unparse(r.value): astq.guard_atoms(w, r) for r in rs_ if r.value is not None}
+        a_g = forms.get("async_func(*args, **kwargs)")
+        n_g = forms.get("normal_func(*args, **kwargs)")
+        # both calls forward the same arguments; they sit on opposite sides of one flag, and the
+        # flag is the is_async probe (whatever the local holding it is called)
+        if a_g and n_g and len(rs_) == 2:
+            flag = [t_ for t_, pol in a_g if pol and (t_, False) in n_g]
+            if len(flag) == 1:
+                src = [x for x in ast.walk(w) if isinstance(x, ast.Assign) and ast.unparse(x.targets[0]) == flag[0]]
+                ok = "is_async" in flag[0] or (len(src) == 1 and "is_async(args)" in ast.unparse(src[0].value))
     ctx.check(ok, "dispatch", "async_utils:async_variant", "dispatch", "the wrapper must call async_func in async mode and normal_func otherwise, with the same arguments", av.loc())
     aw = repo.func("async_utils:auto_await")
     s = ast.unparse(aw.node)
